@@ -16,7 +16,10 @@ PROP = "C18"
 THEOREMS = ["C18_refines", "C18_balanced", "C18_once", "C18_identity", "C18_delete", "C18_replace",
             "C18_skip", "C18_list_local", "C18_chain", "C18_dispatch_total",
             "C18_coverage_partial", "C18_coverage_exact", "C18_coverage_refuted",
-            "C18_terminates", "C18_keep_total"]
+            "C18_terminates", "C18_keep_total",
+            "C18_deep", "C18_local", "C18_quiet_unchanged", "C18_quiet_chain",
+            "C18_member_delete", "C18_member_skip", "C18_member_replace",
+            "C18_oracle_reflects", "C18_oracle_sound"]
 AXIOMS_OK = []
 RUN_MODULE = "Run.C18run Lang.VisitorModel"
 AGREE = "agree_C18"
